@@ -581,7 +581,7 @@ var c11Reasoned = func() map[string]string {
 	for _, f := range []string{"buff", "commonHeaders", "filePosition", "tag"} {
 		m["write:(*components/providers/http/decoders/ammo.RawAmmo).Reset:field RawAmmo."+f] = why
 	}
-	m["write:(*core/aggregator.dataSinkAggregator).Run$2:captured variable flushes"] = "the flush-counter callback is created by Run and handed to the encoder that Run itself creates and drives: it runs only on the aggregator's own goroutine (it is in scope only because an unresolved func() call is resolved to every func() closure)"
+	m["callback:(*core/aggregator.dataSinkAggregator).Run->newEncoder"] = "the flush-counter callback is created by Run and handed to the encoder that Run itself creates and drives: it runs only on the aggregator's own goroutine (it is in scope only because an unresolved func() call is resolved to every func() closure)"
 	return m
 }()
 
@@ -606,6 +606,8 @@ func runC11(c *Ctx) {
 			}
 		case c11Reasoned[w.Key] != "":
 			c.OK("O11.1", w.Key, w.Instr.Pos(), w.What+": reasoned: "+c11Reasoned[w.Key])
+		case c11Reasoned[c11CallbackKey(c.P, w)] != "":
+			c.OK("O11.1", w.Key, w.Instr.Pos(), w.What+": reasoned ("+c11CallbackKey(c.P, w)+"): "+c11Reasoned[c11CallbackKey(c.P, w)])
 		default:
 			if !byKey[w.Key+c.P.Pos(w.Instr.Pos())] {
 				byKey[w.Key+c.P.Pos(w.Instr.Pos())] = true
@@ -1041,4 +1043,81 @@ func isGoTarget(P *Prog, fn *ssa.Function) bool {
 		}
 	}
 	return true
+}
+
+// c11CallbackKey names a write by the flow that owns it, when the writing function is a callback - a closure, or a
+// method used as a method value - made in one function G, handed over only as an argument of one call in G, and writing
+// only to a local variable of G (captured, or the receiver the method value is bound to):
+// "callback:<G>-><callee>", callee being the function called or the field the called function value is read from.
+// Such a write is listed by what the callback is for, not by the name the closure happens to have.
+func c11CallbackKey(P *Prog, w sharedWrite) string {
+	fn := w.Fn
+	var makers []*ssa.MakeClosure
+	var scan []*ssa.Function
+	if par := fn.Parent(); par != nil {
+		scan = WithClosures(par)
+	} else if fn.Pkg != nil {
+		scan = PkgFuncs(fn.Pkg)
+	}
+	for _, g := range scan {
+		EachInstr(g, func(in ssa.Instruction) {
+			if mc, ok := in.(*ssa.MakeClosure); ok {
+				if f, _ := mc.Fn.(*ssa.Function); f != nil && (f == fn || (f != fn && BoundTarget(f) == fn)) {
+					makers = append(makers, mc)
+				}
+			}
+		})
+	}
+	if len(makers) != 1 || makers[0].Referrers() == nil {
+		return ""
+	}
+	mc := makers[0]
+	g := mc.Parent()
+	var call ssa.CallInstruction
+	for _, r := range *mc.Referrers() {
+		switch x := r.(type) {
+		case *ssa.DebugRef:
+		case ssa.CallInstruction:
+			if x.Common().Value == ssa.Value(mc) || call != nil {
+				return ""
+			}
+			call = x
+		default:
+			return ""
+		}
+	}
+	if call == nil {
+		return ""
+	}
+	// the target: a variable of g
+	local := false
+	switch st := w.Instr.(type) {
+	case *ssa.Store:
+		switch a := st.Addr.(type) {
+		case *ssa.FreeVar:
+			if cell, _ := CellOf(a); cell != nil && cell.Parent() == g {
+				local = true
+			}
+		case *ssa.FieldAddr:
+			if len(fn.Params) > 0 && a.X == ssa.Value(fn.Params[0]) && fn.Signature.Recv() != nil && len(mc.Bindings) == 1 {
+				if al, ok := mc.Bindings[0].(*ssa.Alloc); ok && al.Parent() == g {
+					local = true
+				}
+			}
+		}
+	}
+	if !local {
+		return ""
+	}
+	callee := ""
+	cc := call.Common()
+	if sc := cc.StaticCallee(); sc != nil {
+		callee = sc.Name()
+	} else if fv, _ := FieldOf(cc.Value); fv != nil {
+		callee = fv.Name()
+	}
+	if callee == "" {
+		return ""
+	}
+	return "callback:" + fk(g) + "->" + callee
 }
